@@ -197,12 +197,8 @@ func (v *VLANAllocator) findAvailable() (uint16, uint16, error) {
 func (v *VLANAllocator) findAvailableCTag(sTag uint16) (uint16, error) {
 	usage := v.sTagUsage[sTag]
 
-	// If no usage yet, return first C-TAG
-	if usage == nil {
-		return v.config.CTagRange.Start, nil
-	}
-
-	// Find first available C-TAG
+	// Find first available C-TAG (a nil usage map reads as "nothing used"; an
+	// empty C-TAG range yields no candidate instead of CTagRange.Start)
 	for cTag := v.config.CTagRange.Start; cTag <= v.config.CTagRange.End; cTag++ {
 		if _, used := usage[cTag]; !used {
 			return cTag, nil
